@@ -282,6 +282,72 @@ def lagging_read(args):
         cl.shutdown()
 
 
+def stalled_proposals(args):
+    """Both followers are frozen, then three connections hand one write each to the leader (which can append but not commit);
+    the followers come back after `stall` seconds. Each write must take effect exactly once and be answered with its own
+    result however long it waited: the history (with a read-back through every node) must be linearizable."""
+    name, stall, idx = args
+    cl = cluster.Cluster(3, trace=False).start_all()
+    rec = Recorder(idx)
+    stats = {"answered": 0, "unanswered": 0, "faults": []}
+    result = {"name": name, "stats": stats, "path": None, "violations": [], "inconclusive": None}
+    try:
+        if cl.wait_serving(timeout=60) is None:
+            result["inconclusive"] = "cluster did not start serving"
+            return result
+        L, t0 = None, time.time()
+        while L is None and time.time() - t0 < 30:
+            L = leader_of(cl)
+            if L is None:
+                time.sleep(0.3)
+        if L is None:
+            result["inconclusive"] = "no leader line in the logs"
+            return result
+        followers = [nd for nd in cl.nodes if nd is not L]
+        warm = L.client(timeout=8.0)
+        for argv in (["SET", "sctr", "10"], ["RPUSH", "slst", "a"], ["HSET", "sh", "n", "5"]):
+            op = rec.new_op(argv); rec.done(op, conv(warm.cmd(*argv, timeout=8.0)))
+        warm.close()
+        if leader_of(cl) is not L:
+            result["inconclusive"] = "leader changed during preparation"
+            return result
+        for f in followers:
+            cl.stop_cont(f, True)
+        conns, ops = [], []
+        for argv in (["INCR", "sctr"], ["RPUSH", "slst", "b"], ["HINCRBY", "sh", "n", "1"]):
+            c = L.client(timeout=8.0)
+            op = rec.new_op(argv)
+            c.send_raw(server.encode(argv))
+            conns.append(c); ops.append(op)
+        stats["faults"].append("SIGSTOP both followers for %.1f s with three writes handed to the leader" % stall)
+        time.sleep(stall)
+        for f in followers:
+            cl.stop_cont(f, False)
+        for c, op in zip(conns, ops):
+            try:
+                rec.done(op, conv(c.read_reply(timeout=30.0)))
+                stats["answered"] += 1
+            except Exception:
+                stats["unanswered"] += 1
+            c.close()
+        time.sleep(1.0)
+        for nd in cl.nodes:
+            try:
+                c = nd.client(timeout=8.0)
+                for argv in (["GET", "sctr"], ["LRANGE", "slst", "0", "-1"], ["HGET", "sh", "n"]):
+                    op = rec.new_op(argv)
+                    rec.done(op, conv(c.cmd(*argv, timeout=8.0)))
+                c.close()
+            except Exception:
+                result["inconclusive"] = "read-back through node %d got no reply" % nd.id
+        path = os.path.join(d, "hist-%d.ndjson" % idx)
+        rec.write(path)
+        result["path"] = path
+        return result
+    finally:
+        cl.shutdown()
+
+
 if tier == "quick":
     plan = [("steady", 3, [], 6, 20), ("follower-or-leader-kill", 3, ["kill-restart"], 5, 25), ("pause", 3, ["pause"], 5, 20),
             ("pinned-one-client-per-node", 3, [], 3, 40), ("membership-add", 3, ["add-node"], 5, 40), ("membership-remove", 3, ["remove-node"], 5, 40),
@@ -302,10 +368,13 @@ fjobs = [("failover-after-follower-crash-at-%s" % g, g, o, 100 + i) for i, (g, o
 if ONLY:
     fjobs = [j for j in fjobs if ONLY in j[0]]
 with concurrent.futures.ThreadPoolExecutor(max_workers=4) as ex:
+    sjobs = [("stalled-proposals-%.1fs" % st, st, 300 + i) for i, st in enumerate([6.5] if tier == "quick" else [6.5, 12.0, 35.0])]
+    if ONLY:
+        sjobs = [j for j in sjobs if ONLY in j[0]]
     ljobs = [("read-through-lagging-follower", 6 if tier == "quick" else 40, 200)]
     if ONLY:
         ljobs = [j for j in ljobs if ONLY in j[0]]
-    fut = [ex.submit(scenario, j) for j in jobs] + [ex.submit(clusterscen.failover, j, seed, d) for j in fjobs] + [ex.submit(lagging_read, j) for j in ljobs]
+    fut = [ex.submit(scenario, j) for j in jobs] + [ex.submit(clusterscen.failover, j, seed, d) for j in fjobs] + [ex.submit(lagging_read, j) for j in ljobs] + [ex.submit(stalled_proposals, j) for j in sjobs]
     results = [f.result() for f in fut]
 hist_paths = []
 skipped = 0
